@@ -21,12 +21,10 @@ open Rpcx Rpcx.Gen
 theorem sites_ok :
     writeSites.all (fun s => s.writes == 1 && s.whole && s.putAfter) = true
     ∧ strayConnWrites = []
-    ∧ 8 ≤ writeSites.length
-    ∧ (writeSites.map (·.fn)).contains "client.Client.send" = true
-    ∧ (writeSites.map (·.fn)).contains "server.Server.sendResponse" = true
-    ∧ (writeSites.map (·.fn)).contains "server.Server.processOneRequest" = true
-    ∧ (writeSites.map (·.fn)).contains "server.Server.SendMessage" = true
-    ∧ (writeSites.map (·.fn)).contains "server.Context.Write" = true := by decide
+    -- the table is not empty by accident: both packages have their sites (client: send, SendRaw;
+    -- server: responses, heartbeat echo, pushes, router-handler writes) – whatever the functions
+    -- holding them are called after a refactoring
+    ∧ 2 ≤ clientWriteSites ∧ 5 ≤ serverWriteSites := by decide
 
 /-- an encoded frame decodes to its message and leaves nothing -/
 theorem frame_decodes (reg : Registry) (hl : Props.C01.Lawful reg) (m : Msg) (hwf : Props.C01.WF m) (bs : Bytes)
